@@ -123,7 +123,7 @@ def build_harness(name, libdir, scratch):
 
 
 SAN_ENV = {"ASAN_OPTIONS": "detect_leaks=1:abort_on_error=0:exitcode=87:allocator_may_return_null=1",
-           "UBSAN_OPTIONS": "print_stacktrace=1:halt_on_error=1:exitcode=88",
+           "UBSAN_OPTIONS": "print_stacktrace=1:halt_on_error=1:abort_on_error=1",
            "LSAN_OPTIONS": "exitcode=86"}
 
 
